@@ -157,6 +157,9 @@ static std::string full_state(Instance& inst) {
 // SESSION <cfg fields: sigver flags z w script stack succ> <commands: string over {s,r}>
 // after every command: '+' accepted / '-' refused, then the hash of the full state; stops at a failing step ('!')
 static std::string cmd_session(const std::vector<std::string>& a, bool verbose) {
+    // SESSIONF: a failing step does not end the walk: it is marked '!', the (unchanged) state is hashed like any other, and the
+    // commands that follow it are played (a user retries, rewinds, goes on)
+    const bool lenient = a[0] == "SESSIONF";
     RunCfg c = parse_cfg(a);
     std::string cmds = a.size() > 8 ? a[8] : "";
     Instance inst; std::string why;
@@ -167,7 +170,18 @@ static std::string cmd_session(const std::vector<std::string>& a, bool verbose) 
         bool ok;
         if (ch == 's') {
             if (inst.at_end()) { ok = false; }       // fn_step: "at end of script"
-            else { ok = inst.step(); if (!ok) { marks += '!'; break; } }
+            else {
+                ok = inst.step();
+                if (!ok) {
+                    marks += '!';
+                    if (!lenient) break;
+                    std::string fs = full_state(inst);
+                    char b[32]; snprintf(b, 32, "%016llx", (unsigned long long)fnv1a(FNV_INIT, fs));
+                    hh = fnv1a(hh, b);
+                    if (verbose) vt += " {" + fs + "}";
+                    continue;
+                }
+            }
         } else {
             // fn_rewind: at_start -> refused; otherwise instance.rewind()
             ok = !inst.at_start() && inst.rewind();
@@ -179,11 +193,11 @@ static std::string cmd_session(const std::vector<std::string>& a, bool verbose) 
         if (verbose) vt += " {" + fs + "}";
     }
     char b[32]; snprintf(b, 32, "%016llx", (unsigned long long)hh);
-    const bool failed = !marks.empty() && marks.back() == '!';
+    const bool failed = !lenient && !marks.empty() && marks.back() == '!';
     o << "marks=" << marks << " hs=" << b << " state=" << (failed ? std::string("-") : full_state(inst));
     // outcome of continuing to the end from here
     std::string r; bool ok = false;
-    if (marks.empty() || marks.back() != '!') {
+    if (!failed) {
         try { ok = ContinueScript(*inst.env); r = ok ? "OK" : "ERR:" + errname(inst.error); }
         catch (const std::exception& ex) { r = "EXC"; }
         o << " cont=" << r << "/" << (ok ? obs(*inst.env) : std::string("-"));
@@ -209,7 +223,10 @@ static std::string cmd_exec(const std::vector<std::string>& a) {
     for (auto& t : toks) argv.push_back(strdup(t.c_str()));
     std::string r; bool ok = false;
     ScriptError before_err = inst.error;
-    inst.error = SCRIPT_ERR_ERROR_COUNT;   // sentinel: tells a script error from a refusal / caught exception
+    // Preset as EvalScript presets it.  The only failure that sets no error of its own is a Schnorr check refused by the
+    // transaction-less checker (BaseSignatureChecker::CheckSchnorrSignature returns false and leaves serror alone): a tapscript
+    // session without a transaction exists in this harness only, and there the answer is the preset UNKNOWN_ERROR, as in a step.
+    inst.error = SCRIPT_ERR_UNKNOWN_ERROR;
     // capture what eval reports on stderr: it is the only place a refusal ("invalid opcode") and a caught exception differ
     char* ebuf = nullptr; size_t elen = 0;
     FILE* ems = open_memstream(&ebuf, &elen);
@@ -472,7 +489,7 @@ static std::string dispatch(const std::string& line) {
         if (a[0] == "VALUE") return cmd_value(a);
         if (a[0] == "AMOUNT") return cmd_amount(a);
         if (a[0] == "TXARG") return cmd_txarg(a);
-        if (a[0] == "SESSION") return cmd_session(a, false);
+        if (a[0] == "SESSION" || a[0] == "SESSIONF") return cmd_session(a, false);
         if (a[0] == "SESSIONV") return cmd_session(a, true);
     } catch (const std::exception& e) {
         return std::string("HARNESS-EXC ") + e.what();
